@@ -47,7 +47,7 @@ prop("C01", "c01",
      "cases = generated registration sequences (profiles sparse-wide/dense/funnel/mixed/batchy/dep-fans/tiny; dyn+static systems, deps, hints, barriers, batches <=3 deep) built into a real dispatcher; "
      "every plan goes through the layout oracle, every 6th is executed 2-3 times on a pool of 1/2/3/4/8/16 threads via dispatch/dispatch_par/dispatch_seq/async under jitter, forced overlap or a scripted interleaving and judged by the event-log oracle. "
      "A case is counted as distinct non-trivial by (layout hash, pool size, first event-order hash) when the plan has >=1 conflicting pair, the layout has a stage with >=2 groups and >=1 overlap of unordered systems was actually observed in the log.",
-     thorough=[shards(name="main"), san("tsan", name="tsan", scale=0.5), miri(rayon=True, name="miri", args=["--tiny"], scale=0.0005)])
+     thorough=[shards(name="main"), san("tsan", name="tsan", scale=0.25), miri(rayon=True, name="miri", args=["--tiny"], scale=0.0002)])
 
 prop("C02", "c02",
      "cases = generated plans from dependency-heavy profiles (chains, fans, duplicate names, names from before a barrier, resource-less systems); layout oracle on every plan (dependency strictly earlier in stage or earlier in the same group); "
@@ -63,7 +63,7 @@ prop("C07", "c07",
      "cases = generated plans with batches nested 1..3 deep, controllers with empty/read/write/mixed declared data (real library SystemData types), k = 0..3 inner dispatches, HCtl and MultiDispatcher controllers; "
      "layout oracle with the harness's own union of controller data and everything inside; event-log oracle on the batch window against outer systems and C01/C02/C03/C04 oracles re-applied per inner dispatch epoch. "
      "distinct non-trivial = (plan,layout) with a batch whose inner systems add access beyond the controller's, beside >=1 other outer unit.",
-     thorough=[shards(name="main"), miri(rayon=True, name="miri", args=["--tiny"], scale=0.0008)])
+     thorough=[shards(name="main"), miri(rayon=True, name="miri", args=["--tiny"], scale=0.00016)])
 
 prop("C10", "c10",
      "cases = generated plans from every profile incl. 200-600 systems; pure layout oracle: for every system and every stage it skipped after the first allowed one, search for an earlier-registered conflicting system in that stage or a direct dependency in that stage or later; max_threads() == widest stage (top level and every batch). "
@@ -106,7 +106,7 @@ prop("C05", "c05",
      "The xcfg leg runs the same cases in a build of the crate *without* the `parallel` feature (dispatch is then sequential by construction) and compares the final digests with the parallel twin's. "
      "distinct non-trivial = (layout hash, overlap/script evidence) where the parallel twin followed a script exactly or >=1 overlap of unordered systems was observed in its log, and some slot has >=2 writers.",
      quick=[shards(name="main"), shards(name="exhaustive", args=["--exhaustive"]), {"kind": "xcfg", "name": "xcfg", "what": "final world+state digest", "builds": ["nopar"]}],
-     thorough=[shards(name="main"), shards(name="exhaustive", args=["--exhaustive"]), {"kind": "xcfg", "name": "xcfg", "what": "final world+state digest", "builds": ["nopar"]}, san("tsan", name="tsan", scale=0.5)])
+     thorough=[shards(name="main"), shards(name="exhaustive", args=["--exhaustive"]), {"kind": "xcfg", "name": "xcfg", "what": "final world+state digest", "builds": ["nopar"]}, san("tsan", name="tsan", scale=0.25)])
 
 prop("C11", "c11",
      "cases = (stage width w in 2..16, pool size w or 16, context in {user pool, default pool, inside a batch (HCtl or MultiDispatcher), async dispatcher}, with/without a preceding stage) x 30 (quick) / 100 (thorough) dispatches: the heads of all w groups rendezvous inside run (bounded 10 s); a failed rendezvous is a violation only if the control - w plain closures spawned with pool.scope on the same (or an equivalently configured default) pool - completes, otherwise inconclusive. "
@@ -118,13 +118,13 @@ prop("C14", "c14",
      "Oracles: catch_unwind returns Err with the payload token of a system whose injected panic really fired; transitive dependents of it (and of the batches it propagated through) have run count 0; no count above once; every resource cell probes as free; the next dispatch runs every system exactly once in a clean order. "
      "distinct non-trivial = (plan, victim, phase, mode) where the victim fired and has a sibling in its stage or a dependent.",
      level="fault_enumeration",
-     thorough=[shards(name="main"), miri(rayon=True, name="miri", args=["--tiny"], scale=0.002)])
+     thorough=[shards(name="main"), miri(rayon=True, name="miri", args=["--tiny"], scale=0.0005)])
 
 prop("C15", "c15",
      "cases = generated plans built with build_async on pools of 1..16 x random call histories (3..15 ops over dispatch / dispatch with one system parked inside run / running / wait / wait_without_tl / world / world_mut / setup). While a system is provably parked inside run, running() is polled 1..20 times and must be true, then a blocking accessor is called while a helper opens the latch only after the caller announced it is about to block. "
      "After every accessor returns: active systems == 0 and completions == dispatches x systems; running()==false only with all completions; dispatch #n returns only when #n-1 is complete; whole-history event log: every system once per epoch, epochs never overtake; thread-local systems only between wait() marks, on the calling thread, once per wait. "
      "distinct non-trivial = (plan, history) with >=1 poll of running() on a parked system and >=2 dispatches.",
-     thorough=[shards(name="main"), san("tsan", name="tsan", scale=0.5)])
+     thorough=[shards(name="main"), san("tsan", name="tsan", scale=0.25)])
 
 prop("C16", "c16",
      "cases = random trees (depth <=5, fan-out <=6) assembled at run time from the real Par/Seq nodes through a boxing adapter, leaves = self-logging systems over 26 writable + 6 read-only slots, a third of the trees poisoned with one conflicting par-sibling access; conflict-free trees are set up and dispatched 2-3 times on pools 1..16 from outside and from inside the pool (also through RunNow). "
@@ -137,21 +137,21 @@ prop("C08", "c08",
      "(b) every 100th case: 2..16 threads hammer 2..4 resources under catch_unwind; a per-slot shadow counter is changed strictly inside each guard's lifetime (exclusive: CAS 0->-1, shared: add must see >=0), writers write a, spin, b, readers check a==b. "
      "distinct non-trivial = history hash (or stress run) with >=1 refused and >=1 granted borrow of each kind.",
      crash_is_violation=True,
-     thorough=[shards(name="main"), san("tsan", name="tsan", args=["--stress-only"], scale=0.01), miri(name="miri", args=["--small"], scale=0.0005)])
+     thorough=[shards(name="main"), san("tsan", name="tsan", args=["--stress-only"], scale=0.001), miri(name="miri", args=["--small"], scale=0.0002)])
 
 prop("C09", "c09",
      "cases = histories of 80 operations over 8 value types (ZST, u8, [u64;32], String, Vec<u8>, align-16, two drop-tracked types of different size) x 3 dynamic ids: insert, insert_by_id, remove, remove_by_id, entry().or_insert(_with), has_value(_raw), get_mut (+overwrite), get_mut_raw, fetch/fetch_mut, try_fetch(_mut), try_fetch(_mut)_by_id (+overwrite), setup of default-providing and of optional/expecting accessors, exec; 15% of the id-taking calls carry a different type argument (different size). "
      "Oracles: every result against a reference map; after every step has_value_raw == model for all 24 keys and the concrete type_id of every stored box == the key's type; mismatching calls must panic with the wrong-type-id message and change nothing; at the end every tracked value was dropped exactly once. "
      "distinct non-trivial = history hash with >=1 replace, >=1 successful remove and >=1 mismatching-type call.",
      crash_is_violation=True,
-     thorough=[shards(name="main"), san("asan", name="asan", scale=0.3), miri(name="miri", scale=0.00032)])
+     thorough=[shards(name="main"), san("asan", name="asan", scale=0.1), miri(name="miri", scale=0.00008)])
 
 prop("C17", "c17",
      "cases = histories of 70 operations over a MetaTable<dyn Trait> and a world with 12 implementor types (ZST, 1 byte ... 4 KiB, align 16/64, heap-owning): register (with repeats), insert / remove, insert under another dynamic id, get / get_mut on present resources, iter / iter_mut collecting all items, iteration under a live typed exclusive guard, typed writes; every 50th case a CastFrom that returns a different address. "
      "Oracles: reference registration list (first-registration order) and presence map; get(_mut) is Some <=> registered; every yielded object's self-reported address == the resource's address and its type tag == the concrete type's; iter sequences == [registration order ∩ present under dyn id 0] with model values; shared/exclusive interplay with typed fetches; the bad cast must panic with the library's message. "
      "distinct non-trivial = history hash with a repeated registration and a registered-but-absent type.",
      crash_is_violation=True,
-     thorough=[shards(name="main"), san("asan", name="asan", scale=0.3), miri(name="miri", args=["--small"], scale=0.0004)])
+     thorough=[shards(name="main"), san("asan", name="asan", scale=0.1), miri(name="miri", args=["--small"], scale=0.00016)])
 
 prop("C06", "c06",
      "cases = Rust *programs*: SystemData type expressions generated by gen_c06.py, compiled against /repo and run. Families: (i) rotation - every arity 1..26 x 12 rotations of the member kinds (Read, Write, ReadExpect, WriteExpect, Option<Read>, Option<Write>, (), PhantomData, nested tuple, derived struct, Read/Write with a user-written SetupHandler), position p on its own resource A_p; (ii) random per seed - nestings to depth 3, tuples up to arity 26, derived named and tuple structs with an extra lifetime, redundant where-clauses, hand-written generic derives (type parameters, where-clauses, two lifetimes), repeated reads of one resource and (15%) deliberately conflicting members; (iii) thorough only: the full cross family, every (arity, position, kind) triple as its own type. "
